@@ -88,4 +88,10 @@ DRIVERS = {
         "level_text": "Every history (value relative to threshold x irregular clock advance x cgroup presence) of the stated length is run through the real detector inside Oomd::run; at every tick the detector's return value and whether the action chain ran are compared with the documented predicate computed non-incrementally from the whole history, so arming/disarming bookkeeping errors cannot be mirrored by the oracle.",
         "level_note": "Trusted: verif_wrap observer, virtual clock, simulated PSI/memory/vmstat/swaps files, predicates transcribed from docs/core_plugins.md (A.5 of DESIGN.md).",
     },
+    "C15": {
+        "sources": COMMON + ["props/c15.cpp"], "level": "exploration", "engine": "E1",
+        "technique": "bounded-exhaustive enumeration of file contents (kernel grammar, one axis at a time + full products for formula inputs) and multi-tick histories, every public CgroupContext accessor compared with reference functions inside the running tick; within-tick stability by mutate-and-requery",
+        "level_text": "All scenarios of the listed families are run through the real Oomd::run refresh cycle; inside every tick all 32 accessors of every cgroup are compared with independent reference functions (parsing, hierarchical protection, effective swap min/min/max over ancestors, io-cost dot product, EWMA, per-tick deltas, identity), files are then rewritten and all accessors re-queried (no value may move), and the next tick must show the new contents.",
+        "level_note": "Trusted: reference functions written from CgroupContext.h comments and docs/io_cost.md (DESIGN.md A.4), simulated files on tmpfs. Missing/empty/unparsable files belong to C10.",
+    },
 }
